@@ -176,3 +176,112 @@ fn c16_belief_export() {
     kani::cover!(r.is_ok(), "COVER:ordinary_accepted");
     kani::cover!(true, "COVER:reach");
 }
+
+// ---- EXPERIMENTS (to be removed) ----
+fn sv(x: &'static str) -> String {
+    unsafe { String::from_raw_parts(x.as_ptr() as *mut u8, x.len(), x.len()) }
+}
+macro_rules! stack_vec {
+    ($name:ident = [$($e:expr),*]) => {
+        let mut buf = ManuallyDrop::new([$($e),*]);
+        let $name = unsafe { Vec::from_raw_parts(buf.as_mut_ptr(), buf.len(), buf.len()) };
+    };
+}
+fn xbelief() -> WhereClause {
+    WhereClause::Belief { variable: sv("b"), target: BeliefTarget::Proposition(sv("p")) }
+}
+fn xslot() -> WhereClause {
+    WhereClause::BeliefSlot { variable: sv("b"), subject: Term::Variable(sv("x")), predicate: PredAtom::Literal(sv("q")) }
+}
+fn xord() -> WhereClause {
+    WhereClause::Concept { variable: sv("c"), matcher: ObjectMatcher::new() }
+}
+fn xrej(v: Vec<WhereClause>) -> bool {
+    let v = ManuallyDrop::new(v);
+    let r = ManuallyDrop::new(validate_exact_patterns(&v));
+    r.is_err()
+}
+#[kani::proof]
+#[kani::unwind(4)]
+#[kani::stub(alloc::fmt::format, stub_format)]
+fn x_b5() {
+    stack_vec!(v = [xbelief()]);
+    assert!(xrej(v), "X");
+}
+#[kani::proof]
+#[kani::unwind(4)]
+#[kani::stub(alloc::fmt::format, stub_format)]
+fn x_b6() {
+    stack_vec!(v2 = [xslot()]);
+    stack_vec!(v1 = [WhereClause::Optional(v2)]);
+    stack_vec!(v = [WhereClause::Union(v1)]);
+    assert!(xrej(v), "X");
+}
+#[kani::proof]
+#[kani::unwind(4)]
+#[kani::stub(alloc::fmt::format, stub_format)]
+fn x_b7() {
+    stack_vec!(v = [xord(), xslot()]);
+    assert!(xrej(v), "X");
+}
+#[kani::proof]
+#[kani::unwind(3)]
+#[kani::stub(alloc::fmt::format, stub_format)]
+fn x_b8() {
+    stack_vec!(v = [xord(), xslot()]);
+    assert!(xrej(v), "X");
+}
+
+#[kani::proof]
+#[kani::unwind(3)]
+#[kani::stub(alloc::fmt::format, stub_format)]
+fn x_b9() {
+    stack_vec!(v = [xord(), xslot()]);
+    assert!(xrej(v), "X");
+    stack_vec!(v = [xbelief(), xord()]);
+    assert!(xrej(v), "X");
+    stack_vec!(v2 = [xslot()]);
+    stack_vec!(v1 = [WhereClause::Optional(v2)]);
+    stack_vec!(v = [WhereClause::Union(v1)]);
+    assert!(xrej(v), "X");
+    stack_vec!(v2 = [xbelief()]);
+    stack_vec!(v1 = [WhereClause::Not(v2)]);
+    stack_vec!(v = [WhereClause::Not(v1)]);
+    assert!(xrej(v), "X");
+    stack_vec!(v2 = [xord(), xbelief()]);
+    stack_vec!(v1 = [xord(), WhereClause::Not(v2)]);
+    stack_vec!(v = [xord(), WhereClause::Optional(v1)]);
+    assert!(xrej(v), "X");
+    stack_vec!(v1 = [xord()]);
+    stack_vec!(v = [xord(), WhereClause::Optional(v1)]);
+    kani::cover!(!xrej(v), "COVER:ok");
+}
+
+#[kani::proof]
+#[kani::unwind(2)]
+#[kani::stub(alloc::fmt::format, stub_format)]
+fn x_c1() {
+    stack_vec!(v = [xbelief()]);
+    assert!(xrej(v), "X");
+}
+#[kani::proof]
+#[kani::unwind(2)]
+#[kani::stub(alloc::fmt::format, stub_format)]
+fn x_c2() {
+    stack_vec!(v = [xord()]);
+    assert!(!xrej(v), "X");
+}
+#[kani::proof]
+#[kani::unwind(2)]
+#[kani::stub(alloc::fmt::format, stub_format)]
+fn x_c3() {
+    let e = ManuallyDrop::new(KipError::invalid_syntax("x"));
+    assert!(e.message.is_empty(), "X");
+}
+#[kani::proof]
+#[kani::unwind(2)]
+fn x_c4() {
+    let v: [WhereClause; 0] = [];
+    let r = ManuallyDrop::new(validate_exact_patterns(&v));
+    assert!(r.is_ok(), "X");
+}
